@@ -31,6 +31,12 @@ CHECKS = {
                      "returned objects have amounts >= 0 and 0 <= volume <= capacity, acceptance implies the request is "
                      "feasible, refusal is a ValueError and implies the request is infeasible (so exact-capacity "
                      "requests are accepted; also checked under the delta rounding model)."),
+    'C06': dict(engine=E1, design='§4 C06',
+                technique="symbolic execution of Unit.convert_from over the complete unit table; polynomial identity vs an independent factor table",
+                text="all 4800 (kind, from, to, prefix, prefix) conversions with symbolic amount, molecular weight, density, "
+                     "specific activity and configured default densities equal q*m(pf)*F/m(pt) for an independently "
+                     "written factor table; zero cells and the non-enzyme-in-U rejection; linearity, composition over "
+                     "all base-unit triples, round trips; storage conversions; the enzyme factory's unit texts."),
     'C02': dict(engine=E1, design='§4 C02',
                 technique="symbolic execution of Container.transfer/Plate.transfer with z3 (QF_NRA/LRA), differential vs independent unit table",
                 text="size of the aliquot (in the unit of q), uniformity (cross-multiplied ratios) and destination gain "
